@@ -18,7 +18,8 @@
                  formatnum, #time ...): silent overflow to +inf / -inf, inf-inf and 0*inf (NaN),
                  an integer literal beyond the float range (310 digits), negative zero, a
                  subnormal, division / mod by zero, rounding to a huge negative / positive number
-                 of digits, ^ with a huge exponent, deeply nested parentheses.
+                 of digits, ^ with a huge exponent, deeply nested parentheses, exponent notation with a
+                 large negative / moderately large positive exponent (1e-300000, 1e5000).
        Arity 0 and 1 are complete; for arity 2 and 3 the quick tier takes a covering design
        (all pairs of (position, shape), see CallShapes below), the thorough tier adds the
        product itself thinned by strides (tuples with at most one Edge shape).
@@ -63,7 +64,7 @@ vars == <<name, shapes, lex, rep, emitted>>
 
 BaseShapes == <<"empty", "zero", "word", "small", "huge", "negative", "decimal", "exponent", "path", "nested">>
 EdgeShapes == <<"posinf", "neginf", "nan", "zerotimesinf", "bigint", "negzero", "subnormal", "divzero", "modzero",
-                "roundneg", "roundpos", "powhuge", "deepparen">>
+                "roundneg", "roundpos", "powhuge", "deepparen", "expneg", "expmid">>
 HeavyShapes == <<"oversize">> \o EdgeShapes
 Shapes == BaseShapes \o HeavyShapes
 NShapes == Len(Shapes)
@@ -119,7 +120,7 @@ Deep == 3000
      * all pairs over the ten base shapes in every pair of positions: arity 2 is the full base
        square; arity 3 is the orthogonal array {(a, b, a+b mod 11)} over eleven symbols, the
        eleventh being free (a base shape rotated by the seed and the name);
-     * every heavy shape (oversize text, the thirteen edge-arithmetic shapes) in every position
+     * every heavy shape (oversize text, the fifteen edge-arithmetic shapes) in every position
        against every critical shape (empty, zero, negative, huge) in every other position.
    Every other name gets each-choice coverage: every shape in every position (names that are no
    function at all — they can only be template titles — see the oversize text at arity 1 only).
